@@ -2,6 +2,8 @@
 C13 — property theorems. Model: `HydroVerif/Model/C13.lean`.
 -/
 import HydroVerif.Lemmas.C13Header
+import HydroVerif.Lemmas.C13Clip
+import HydroVerif.Lemmas.C13Examples
 
 namespace HydroVerif.C13
 
@@ -82,24 +84,14 @@ theorem clipWord_id (t : DType) (lo hi : Option Int) (w : Nat) (hw : w < wordBou
         exact ofInt_toInt t w hw
 
 /-- with the default bounds the whole array goes through unchanged, whatever the values (NaN, inf, 2^63-1 …) -/
-theorem clipData_default (t : DType) (rows : List (List Nat)) : clipData t none none rows = rows := by
-  unfold clipData
-  have hw : ∀ w, clipWord t none none w = w := by
-    intro w; unfold clipWord; cases t.kind <;> simp
-  have hr : ∀ r : List Nat, r.map (clipWord t none none) = r := by
-    intro r
-    calc r.map (clipWord t none none) = r.map id := List.map_congr_left (fun w _ => hw w)
-      _ = r := List.map_id _
-  calc rows.map (fun r => r.map (clipWord t none none)) = rows.map id := List.map_congr_left (fun r _ => hr r)
-    _ = rows := List.map_id _
+theorem clipData_default (t : DType) (rows : List (List Nat)) : clipData t none none rows = rows :=
+  clipData_default' t rows
 
 /-- the data setter keeps an array of the right shape bit-identical (default bounds) -/
 theorem setData_id {ν : Type} (g : Grid ν) (rows : List (List Nat)) (hb : g.lo = none ∧ g.hi = none)
     (hr : (rows.length : Int) = g.nrows) (hc : ∀ r ∈ rows, (r.length : Int) = g.ncols) :
-    setData g rows = .ok { g with data := rows } := by
-  unfold setData
-  rw [if_neg (by simpa [hr] using hc)]
-  rw [hb.1, hb.2, clipData_default]
+    setData g rows = .ok { g with data := rows } :=
+  setData_id' g rows hb hr hc
 
 /-- **load**: a file that stores `rows` row by row in byte order `bo` is loaded, with that byte order, to exactly
 `rows` — for every dtype with a positive item size, every shape and every word (full range, NaN, inf) -/
@@ -250,15 +242,6 @@ theorem header_roundtrip {ν : Type} (io : NumIO ν) (hio : IOok io) (bo : ByteO
     simp only [↓reduceIte, hdtB, Config.init, mkGrid, hnv, if_neg hshape]
     exact ⟨_, rfl, rfl, rfl, rfl, rfl, rfl, rfl, rfl, rfl, rfl, rfl, rfl⟩
 
-/-- a grid as the property quantifies over it: admissible header fields, default `mindata/maxdata`, an
-`nrows × ncols` array of words of the grid's dtype -/
-structure GridOK {ν : Type} (io : NumIO ν) (g : Grid ν) : Prop where
-  header : HeaderOK io g
-  default_bounds : g.lo = none ∧ g.hi = none
-  rows : (g.data.length : Int) = g.nrows
-  cols : ∀ r ∈ g.data, (r.length : Int) = g.ncols
-  words : ∀ r ∈ g.data, ∀ w ∈ r, w < wordBound g.dtype
-
 theorem bytes_pos_of_mem {t : DType} (h : t ∈ allDTypes) : 0 < t.bytes := by
   revert t; decide
 
@@ -295,5 +278,209 @@ theorem save_load {ν : Type} (io : NumIO ν) (hio : IOok io) (g : Grid ν) (hg 
   · have he : encode ByteOrder.little g.dtype.bytes = encodeLE g.dtype.bytes := by funext w; rfl
     rw [he] at hl
     exact hl
+
+/-! ## 5. dictionaries -/
+
+/-- the no-data text of `to_dict` is turned back into the same scalar by the constructor -/
+theorem nodataWord_text {ν : Type} (io : NumIO ν) (t : DType) (w : Nat) (hw : w < wordBound t)
+    (hp : NodataPrintable io t w) : nodataWord io t (.text (nodataStr io t w)) = .ok w := by
+  unfold nodataStr nodataWord
+  cases hk : t.kind with
+  | float =>
+    obtain ⟨h1, _, y, h3, h4⟩ := hp hk
+    simp only [strip_noSpace _ h1, h3, h4]
+  | int =>
+    simp only [strip_noSpace _ (intStr_noSpace _), parseInt?_intStr, intInRange_toInt t w hw, if_true,
+      ofInt_toInt t w hw]
+  | uint =>
+    simp only [strip_noSpace _ (intStr_noSpace _), parseInt?_intStr, intInRange_toInt t w hw, if_true,
+      ofInt_toInt t w hw]
+
+/-- **grid dictionary round trip**: `Grid.from_dict(g.to_dict())` has the same name, shape, georeferencing, dtype,
+no-data value and comment (its data are zeros: the dictionary carries metadata only) -/
+theorem dict_roundtrip {ν : Type} (io : NumIO ν) (g : Grid ν) (hs : g.dtype ∈ allDTypes)
+    (hw : g.nodata < wordBound g.dtype) (hp : NodataPrintable io g.dtype g.nodata)
+    (hr : 0 ≤ g.nrows) (hc : 0 ≤ g.ncols) :
+    ∃ g', fromDict io (toDict io g) = .ok g' ∧ g'.name = g.name ∧ g'.comment = g.comment ∧
+      g'.nrows = g.nrows ∧ g'.ncols = g.ncols ∧ g'.xll = g.xll ∧ g'.yll = g.yll ∧ g'.csz = g.csz ∧
+      g'.dtype = g.dtype ∧ g'.nodata = g.nodata ∧ g'.data = zeros g.nrows.toNat g.ncols.toNat := by
+  unfold fromDict toDict
+  have hshape : ¬ (g.nrows < 0 ∨ g.ncols < 0) := by omega
+  simp only [dtypeOfStr_dtypeStr g.dtype hs, mkGrid, nodataWord_text io g.dtype g.nodata hw hp, if_neg hshape]
+  exact ⟨_, rfl, rfl, rfl, rfl, rfl, rfl, rfl, rfl, rfl, rfl, rfl⟩
+
+/-- `Catchment.to_dict` succeeds exactly on delineated catchments -/
+theorem catchToDict_ok_iff {ν : Type} (io : NumIO ν) (c : Catchment ν) :
+    (∃ d, catchToDict io c = .ok d) ↔ (c.area.isSome ∧ c.filled.isSome) := by
+  unfold catchToDict
+  cases c.area <;> cases c.filled <;> simp
+
+/-- **catchment dictionary round trip**: outlet, inlets (present or absent), area cells and filled area cells
+come back unchanged and in the same order, together with the name and the metadata of the flow-direction grid -/
+theorem catchment_dict_roundtrip {ν : Type} (io : NumIO ν) (c : Catchment ν) (a f : List Int)
+    (ha : c.area = some a) (hf : c.filled = some f) (hs : c.flowdir.dtype = int64)
+    (hw : c.flowdir.nodata < wordBound int64) (hr : 0 ≤ c.flowdir.nrows) (hc : 0 ≤ c.flowdir.ncols) :
+    ∃ d c', catchToDict io c = .ok d ∧ catchFromDict io d = .ok c' ∧
+      c'.name = c.name ∧ c'.outlet = c.outlet ∧ c'.inlets = c.inlets ∧ c'.area = c.area ∧ c'.filled = c.filled ∧
+      c'.flowdir.nrows = c.flowdir.nrows ∧ c'.flowdir.ncols = c.flowdir.ncols ∧ c'.flowdir.xll = c.flowdir.xll ∧
+      c'.flowdir.yll = c.flowdir.yll ∧ c'.flowdir.csz = c.flowdir.csz ∧ c'.flowdir.dtype = c.flowdir.dtype ∧
+      c'.flowdir.nodata = c.flowdir.nodata := by
+  have hmem : c.flowdir.dtype ∈ allDTypes := by rw [hs]; decide
+  have hp : NodataPrintable io c.flowdir.dtype c.flowdir.nodata := by
+    intro hk; rw [hs] at hk; exact absurd hk (by decide)
+  obtain ⟨g', hg', _, _, h3, h4, h5, h6, h7, h8, h9, _⟩ :=
+    dict_roundtrip io c.flowdir hmem (by rw [hs]; exact hw) hp hr hc
+  unfold catchToDict
+  simp only [ha, hf]
+  let d : CatchDict ν :=
+    { name := c.name, outlet := c.outlet, inlets := c.inlets, area := a, filled := f, flowdir := toDict io c.flowdir }
+  let c' : Catchment ν :=
+    { name := c.name, flowdir := { g' with dtype := int64 }, outlet := c.outlet, inlets := c.inlets, area := some a,
+      filled := some f }
+  have hfrom : catchFromDict io d = .ok c' := by
+    simp only [catchFromDict, d, hg', c']
+  exact ⟨d, c', rfl, hfrom, rfl, rfl, rfl, rfl, rfl, h3, h4, h5, h6, h7, hs.symm, h9⟩
+
+/-! ## 6. clones -/
+
+/-- a clone is the same grid: shape, georeferencing, dtype, no-data value, bounds, parent attributes and every
+cell word -/
+theorem clone_eq {ν : Type} (g : Grid ν) : clone g = g := rfl
+
+/-- one operation through handle `b` leaves what another handle `a` (a different array) sees unchanged, and keeps
+the two handles on different arrays -/
+theorem apply_other (s : Store) (a b : Handle) (ha : a.arr < s.length) (hb : b.arr < s.length) (hne : a.arr ≠ b.arr)
+    (op : SOp) :
+    (op.apply s b).1.read a = s.read a ∧ a.arr < (op.apply s b).1.length ∧
+      (op.apply s b).2.arr < (op.apply s b).1.length ∧ a.arr ≠ (op.apply s b).2.arr := by
+  cases op with
+  | setItem idx w => simp only [SOp.apply]; exact ⟨read_set_ne _ _ _ _ hne, by simpa using ha, by simpa using hb, hne⟩
+  | fill w => simp only [SOp.apply]; exact ⟨read_set_ne _ _ _ _ hne, by simpa using ha, by simpa using hb, hne⟩
+  | setData rows =>
+    simp only [SOp.apply]
+    exact ⟨read_append _ _ _ ha, by simp; omega, by simp, by omega⟩
+
+theorem applyAll_other (ops : List SOp) : ∀ (s : Store) (a b : Handle), a.arr < s.length → b.arr < s.length →
+    a.arr ≠ b.arr → (applyAll s b ops).1.read a = s.read a := by
+  induction ops with
+  | nil => intro s a b _ _ _; rfl
+  | cons op ops ih =>
+    intro s a b ha hb hne
+    obtain ⟨h1, h2, h3, h4⟩ := apply_other s a b ha hb hne op
+    simp only [applyAll]
+    rw [ih _ a _ h2 h3 h4, h1]
+
+
+/-- **clone independence** (`copy.deepcopy`): the clone sees the same cell words as the original at the moment of
+cloning; afterwards any sequence of item writes, fills and data rebindings applied through the clone leaves the
+original's cells unchanged, and any such sequence applied through the original leaves the clone's cells unchanged -/
+theorem clone_independent (s : Store) (a : Handle) (ha : a.arr < s.length) (ops : List SOp) :
+    (s.clone a).1.read (s.clone a).2 = s.read a ∧
+    (applyAll (s.clone a).1 (s.clone a).2 ops).1.read a = s.read a ∧
+    (applyAll (s.clone a).1 a ops).1.read (s.clone a).2 = s.read a := by
+  have hb : (s.clone a).2.arr < (s.clone a).1.length := by simp [Store.clone]
+  have ha' : a.arr < (s.clone a).1.length := by simp [Store.clone]; omega
+  have hne : a.arr ≠ (s.clone a).2.arr := by simp [Store.clone]; omega
+  have hread : (s.clone a).1.read (s.clone a).2 = s.read a := by simp [Store.clone, read_append_new]
+  refine ⟨hread, ?_, ?_⟩
+  · rw [applyAll_other ops _ a _ ha' hb hne]
+    simp [Store.clone, read_append _ _ _ ha]
+  · rw [applyAll_other ops _ _ a hb ha' (Ne.symm hne), hread]
+
+/-! ## 7. clip -/
+
+section ClipThm
+open HydroVerif.C07
+variable {α : Type} [Field α] [LinearOrder α] [IsStrictOrderedRing α] [FloorRing α]
+
+/-- **clip holds the parent's values at coinciding cell centres** (exact arithmetic: any ordered field with a
+floor). For a positive cell size and a box whose lower-left and upper-right corners both lie in the extent, `clip`
+succeeds; the clipped grid keeps dtype, no-data value and cell size; it is the block of the parent that starts at
+row `top` / column `left` (the row of the upper-right corner's cell, the column of the lower-left corner's cell),
+it is not empty and lies inside the parent; and for every cell `(i, j)` of the clipped grid its centre IS the
+centre of the parent cell `(top+i, left+j)`, and it holds that parent cell's word. -/
+theorem clip_parent_values (io : NumIO α) (g : Grid α) (hcsz : 0 < g.csz) (hnc : 0 < g.ncols)
+    (hr : (g.data.length : Int) = g.nrows) (hc : ∀ r ∈ g.data, (r.length : Int) = g.ncols)
+    {x0 y0 x1 y1 : α} (h0 : InExtent (geom g) x0 y0) (h1 : InExtent (geom g) x1 y1) (hx : x0 ≤ x1) (hy : y0 ≤ y1) :
+    ∃ ng top left, clip io g x0 y0 x1 y1 = .ok ng ∧
+      ng.dtype = g.dtype ∧ ng.nodata = g.nodata ∧ ng.csz = g.csz ∧
+      top = rowOf g.ncols (coord2cell (geom g) x1 y1) ∧ left = colOf g.ncols (coord2cell (geom g) x0 y0) ∧
+      0 < ng.nrows ∧ 0 < ng.ncols ∧ 0 ≤ top ∧ top + ng.nrows ≤ g.nrows ∧ 0 ≤ left ∧ left + ng.ncols ≤ g.ncols ∧
+      ∀ i j : Nat, (i : Int) < ng.nrows → (j : Int) < ng.ncols →
+        (∃ xy, cell2coord (geom ng) (cellOf ng.ncols i j) = some xy ∧
+               cell2coord (geom g) (cellOf g.ncols (top + i) (left + j)) = some xy) ∧
+        (∃ v, (ng.data[i]?.bind (·[j]?)) = some v ∧ (g.data[top.toNat + i]?.bind (·[left.toNat + j]?)) = some v) := by
+  obtain ⟨ng, hclip, hnr, hncols, hcs, hdt, hnd, hxll, hyll, hdata⟩ := clip_eq io g hcsz hnc hr hc h0 h1 hx hy
+  obtain ⟨v0, _⟩ := coord2cell_of_inExtent (g := geom g) hcsz h0
+  obtain ⟨v1, _⟩ := coord2cell_of_inExtent (g := geom g) hcsz h1
+  obtain ⟨hcol, hrow⟩ := corner_cells_ordered (gm := geom g) hcsz h0 h1 hx hy
+  have hgn : (geom g).ncols = g.ncols := rfl
+  have hgr : (geom g).nrows = g.nrows := rfl
+  rw [hgn] at hcol hrow
+  rw [hgn, hgr] at v0 v1
+  obtain ⟨a0, a1, a2, a3, _⟩ := valid_rowcol hnc v0
+  obtain ⟨b0, b1, b2, b3, _⟩ := valid_rowcol hnc v1
+  refine ⟨ng, _, _, hclip, hdt, hnd, hcs, rfl, rfl, by omega, by omega, b0, by omega, a2, by omega, ?_⟩
+  intro i j hi hj
+  constructor
+  · have hcc := clip_centre g ng (coord2cell (geom g) x0 y0) (rowOf g.ncols (coord2cell (geom g) x1 y1)) i j
+      hxll hyll hcs hi hj b0 (by omega) a1 a2 (by omega)
+    have hv : validCell ng.nrows ng.ncols (cellOf ng.ncols i j) = true :=
+      validCell_cellOf (Int.natCast_nonneg i) hi (Int.natCast_nonneg j) hj
+    refine ⟨getcoord (geom ng) (cellOf ng.ncols i j), ?_, ?_⟩
+    · unfold cell2coord; rw [show (geom ng).nrows = ng.nrows from rfl, show (geom ng).ncols = ng.ncols from rfl, if_pos hv]
+    · rw [← hcc]; unfold cell2coord
+      rw [show (geom ng).nrows = ng.nrows from rfl, show (geom ng).ncols = ng.ncols from rfl, if_pos hv]
+  · rw [hdata]
+    exact clip_block_get g.data g.nrows g.ncols _ _ _ _ i j hr hc b0 a1 a2 b3 (by omega) (by omega)
+
+end ClipThm
+
+/-! ## 8. the hypotheses are satisfiable; sample evaluations -/
+
+section Examples
+open HydroVerif.C07
+
+example : IOok ioToy := ioToy_ok
+example : GridOK ioToy g0 := g0_ok
+example : GridOK ioToy g1 :=
+  ⟨⟨by decide, by decide, by decide, by decide, by decide, by decide, fun a v h => by simp [lookup, g1, g0] at h,
+    fun _ => ⟨by decide, by decide, 2143289344, by decide, by decide⟩⟩, by decide, by decide, by decide, by decide⟩
+
+
+set_option maxRecDepth 8000 in
+/-- the header `Grid.save` writes for `g0` -/
+example : (save ioToy g0).toOption.map (fun p => (p.1, p.2.length)) =
+    some ("NROWS          2\nNCOLS          3\nXLLCORNER      -5\nYLLCORNER      7\nCELLSIZE       2\nNBITS          64\nPIXELTYPE      SIGNEDINT\nBYTEORDER      I\nNODATA_VALUE   -1\nNAME           My Grid\nCOMMENT        No comment\n".toList, 48) := by
+  decide
+
+/-- … and what `from_stream` makes of it and of the data bytes (an instance of `save_load`): same shape, corner,
+cell size, dtype, no-data word and cell words (2^62+1, -2^63 included) -/
+example : ∃ h b g, save ioToy g0 = .ok (h, b) ∧ fromStream ioToy "stem".toList h (some b) = .ok g ∧
+    g.nrows = 2 ∧ g.ncols = 3 ∧ g.xll = -5 ∧ g.yll = 7 ∧ g.csz = 2 ∧ g.dtype = ⟨.int, 8⟩ ∧
+    g.nodata = 18446744073709551615 ∧ g.data = g0.data := by
+  obtain ⟨h, b, hs, g, hl, h1, h2, h3, h4, h5, h6, h7, h8⟩ := save_load ioToy ioToy_ok g0 g0_ok "stem".toList
+  exact ⟨h, b, g, hs, hl, h1, h2, h3, h4, h5, h6, h7, h8⟩
+
+/-- byte order matters: the big-endian bytes of 1 read as little-endian are 256 -/
+example : decode .little (encode .big 2 1) = 256 ∧ decode .big (encode .big 2 1) = 1 := by decide
+
+/-- the pixel-type regex of `from_stream` -/
+example : pixelSub "signedint".toList = "i".toList ∧ pixelSub "unsignedint".toList = "u".toList ∧
+    pixelSub "float".toList = "f".toList ∧ pixelSub "int".toList = "i".toList ∧ pixelSub "uint".toList = "ui".toList := by
+  decide
+
+/-- malformed headers are rejected with the error the code raises -/
+example : (fromStream ioToy [] "NROWS 2\nBYTEORDER X\nNCOLS 2\n".toList none).toOption.isNone = true ∧
+    (match parseHeader ioToy [] "NROWS\n".toList with | .error .malformedLine => true | _ => false) = true := by
+  decide
+
+/-- the hypotheses of `clip_parent_values` are met by a 2×3 grid and the box [(1/2,1/2), (5/2,3/2)] -/
+example : 0 < gq.csz ∧ 0 < gq.ncols ∧ (gq.data.length : Int) = gq.nrows ∧ (∀ r ∈ gq.data, (r.length : Int) = gq.ncols) ∧
+    InExtent (geom gq) (1/2) (1/2) ∧ InExtent (geom gq) (5/2) (3/2) ∧ ((1 : ℚ)/2 ≤ 5/2) ∧ ((1 : ℚ)/2 ≤ 3/2) := by
+  refine ⟨by norm_num [gq], by decide, by decide, by decide, ?_, ?_, by norm_num, by norm_num⟩ <;>
+    norm_num [InExtent, geom, gq]
+
+end Examples
 
 end HydroVerif.C13
